@@ -205,6 +205,11 @@ def do_node(world, rep, op):
     g, m = rep.g, rep.m
     kind = op['kind']
     attrs = copy.deepcopy(op.get('attrs') or {})
+    if rep.shared_attrs and attrs and kind in ('add_node', 'add_nodes_from') and \
+            any(n in m.nodes for n in ([op['n']] if kind == 'add_node' else op['ns'])):
+        # in-place update of an attribute dict that may be shared with another replica
+        # (time_slice shares them; no property promises otherwise)
+        return {'out': 'skipped', 'fault': False, 'cls': 'node', 'keys': []}
     if kind == 'add_node':
         st, r = call(g.add_node, op['n'], **attrs)
         if st == 'ok':
@@ -214,6 +219,8 @@ def do_node(world, rep, op):
         if st == 'ok':
             for n in op['ns']:
                 m.add_node(n, attrs)
+            if len(op['ns']) > 1 and any(isinstance(v, (list, dict)) for v in attrs.values()):
+                rep.shared_attrs = True      # networkx shallow-copies attr per node: nested values shared
     elif kind == 'update_node_attr':
         if op['n'] not in m.nodes:
             return {'out': 'skipped', 'fault': False, 'cls': 'node', 'keys': []}
@@ -255,3 +262,235 @@ def new_root(world, op):
     world.reps.append(rep)
     world.count('root.%s.%s' % ('D' if directed else 'U', 'removal' if removal else 'accumulative'))
     return {'out': 'ok', 'fault': False, 'cls': 'root', 'keys': []}
+
+
+# ------------------------------------------------------------------ derivations (C06, C16)
+def require_source_ok(world, rep):
+    """derivation oracles compare the derived graph with the source's model: the source must
+    agree with its model first (otherwise the defect belongs to C01, not to the derivation)"""
+    from . import oracles
+    lo, hi = oracles.window(rep.m)
+    bad = oracles.presence_mismatch(rep, lo, hi)
+    if bad:
+        raise Precondition('source replica disagrees with its model: %r' % (bad,))
+
+
+def attrs_mismatch(g, m):
+    got = {n: obs.canon(a) for n, a in g.nodes(data=True)}
+    exp = {n: obs.canon(a) for n, a in m.nodes.items()}
+    if got != exp:
+        return {'impl': sorted(map(repr, got.items())), 'model': sorted(map(repr, exp.items()))}
+    if obs.canon(dict(g.graph)) != obs.canon(m.gattrs):
+        return {'impl_graph': repr(dict(g.graph)), 'model_graph': repr(m.gattrs)}
+    return None
+
+
+def check_derived(world, tag, h, hm, cls_expected, op, nodes_exact=True):
+    """presence of the derived graph == model for all pairs and instants; nodes and attrs"""
+    from . import oracles
+    from .core import Replica as R
+    if type(h) is not cls_expected:
+        raise Violation(tag + '.class', 'class', {'got': type(h).__name__, 'expected': cls_expected.__name__})
+    tmp = R(h, hm, 'tmp')
+    lo, hi = oracles.window(hm, [op.get('t_from'), op.get('t_to')])
+    bad = oracles.presence_mismatch(tmp, lo, hi)
+    if bad:
+        raise Violation(tag + '.presence', bad[0], {'op': op, 'query': bad[1], 'got': bad[2]})
+    world.evals += getattr(tmp, '_n', 1)
+    if nodes_exact:
+        am = attrs_mismatch(h, hm) if tag != 'C06' else None
+        if tag == 'C06':
+            got = {n: obs.canon(a) for n, a in h.nodes(data=True)}
+            exp = {n: obs.canon(a) for n, a in hm.nodes.items()}
+            if got != exp:
+                am = {'impl': sorted(map(repr, got.items())), 'model': sorted(map(repr, exp.items()))}
+        if am:
+            raise Violation(tag + '.nodes', 'nodes-or-attrs', dict(am, op=op))
+
+
+def do_slice(world, rep, op):
+    g, m = rep.g, rep.m
+    require_source_ok(world, rep)
+    a, b = op['t_from'], op.get('t_to')
+    lo, hi = __import__('dst.oracles', fromlist=['x']).window(m, [a, b])
+    pre = obs.full(g, lo, hi)
+    if op.get('form') == 'func':
+        st, h = call(dn.time_slice, g, a, b) if b is not None or op.get('pass_none') else call(dn.time_slice, g, a)
+    else:
+        st, h = call(g.time_slice, a, b) if b is not None or op.get('pass_none') else call(g.time_slice, a)
+    post = obs.full(g, lo, hi)
+    d = obs.diff(pre, post)
+    if d:
+        raise Violation('C06.source-unchanged', ','.join(d), {'op': op, 'before': {k: pre[k] for k in d},
+                                                              'after': {k: post[k] for k in d}})
+    world.evals += 1
+    if b is not None and b < a:
+        if st == 'ok' or not isinstance(h, ValueError):
+            raise Violation('C06.window', 'inverted-window-not-rejected', {'op': op, 'got': classify(st, h)})
+        world.count('slice.inverted')
+        return {'out': 'ValueError', 'fault': True, 'cls': 'slice-inverted', 'keys': []}
+    if st != 'ok':
+        raise Violation('C06.raises', exc_class(h), {'op': op, 'msg': str(h)})
+    bb = a if b is None else b
+    hm = m.slice(a, bb)
+    cls = dn.DynDiGraph if m.directed else dn.DynGraph
+    check_derived(world, 'C06', h, hm, cls, op)
+    new = Replica(h, hm, 'slice', op['g'])
+    new.shared_attrs = rep.shared_attrs = True     # time_slice shares attribute dicts (not promised otherwise)
+    world.reps.append(new)
+    world.count('slice.' + slice_class(m, a, bb))
+    return {'out': 'ok', 'fault': False, 'cls': 'slice', 'keys': [], 'new': len(world.reps) - 1}
+
+
+def slice_class(m, a, b):
+    ids = m.instants()
+    if not ids:
+        return 'empty-source'
+    hit = [t for t in ids if a <= t <= b]
+    if not hit:
+        return 'misses-everything'
+    if a <= ids[0] and b >= ids[-1]:
+        return 'covers-everything'
+    cuts = 0
+    for k in m.keys():
+        for s, e in m.runs(k):
+            if s < a <= e:
+                cuts |= 1
+            if s <= b < e:
+                cuts |= 2
+    return ['between-runs', 'cuts-head', 'cuts-tail', 'cuts-both'][cuts]
+
+
+def do_slice2(world, rep, op):
+    """slicing a slice equals slicing by the intersection of the windows"""
+    g, m = rep.g, rep.m
+    require_source_ok(world, rep)
+    (a1, b1), (a2, b2) = op['w1'], op['w2']
+    st, h1 = call(g.time_slice, a1, b1)
+    if st != 'ok':
+        raise Violation('C06.raises', exc_class(h1), {'op': op})
+    st, h12 = call(h1.time_slice, a2, b2)
+    if st != 'ok':
+        raise Violation('C06.raises', exc_class(h12), {'op': op, 'stage': 'slice-of-slice'})
+    a, b = max(a1, a2), min(b1, b2)
+    lo, hi = min(a1, a2) - 2, max(b1, b2) + 2
+    o12 = obs.full(h12, lo, hi)
+    if a <= b:
+        st, hd = call(g.time_slice, a, b)
+        if st != 'ok':
+            raise Violation('C06.raises', exc_class(hd), {'op': op, 'stage': 'intersection'})
+        od = obs.full(hd, lo, hi)
+        d = obs.diff(od, o12)
+        d = [x for x in d if x != 'graph']
+        if 'stream' in d and sorted(od['stream'], key=repr) == sorted(o12['stream'], key=repr) and \
+                [e[2] for e in od['stream']] == [e[2] for e in o12['stream']]:
+            d.remove('stream')      # same events, chronological in both; order inside an instant is free
+        if d:
+            raise Violation('C06.slice-of-slice', ','.join(d), {'op': op, 'direct': {k: od[k] for k in d},
+                                                                'nested': {k: o12[k] for k in d}})
+    else:
+        if o12['presence'] or o12['nodes'] or o12['stream'] or o12['ids']:
+            raise Violation('C06.slice-of-slice', 'disjoint-windows-not-empty', {'op': op, 'nested': o12})
+    world.evals += 1
+    world.count('slice2.' + ('overlap' if a <= b else 'disjoint'))
+    return {'out': 'ok', 'fault': False, 'cls': 'slice2', 'keys': []}
+
+
+def do_convert(world, rep, op):
+    g, m = rep.g, rep.m
+    require_source_ok(world, rep)
+    from . import oracles
+    lo, hi = oracles.window(m)
+    pre = obs.full(g, lo, hi)
+    if op['to'] == 'directed':
+        if m.directed:
+            return {'out': 'skipped', 'fault': False, 'cls': 'skip', 'keys': []}
+        st, h = call(g.to_directed)
+        hm = m.to_directed()
+        cls = dn.DynDiGraph
+    else:
+        if not m.directed:
+            return {'out': 'skipped', 'fault': False, 'cls': 'skip', 'keys': []}
+        rec = bool(op.get('reciprocal'))
+        st, h = call(g.to_undirected, reciprocal=True) if rec else (
+            call(g.to_undirected) if op.get('default_arg') else call(g.to_undirected, reciprocal=False))
+        hm = m.to_undirected(rec)
+        cls = dn.DynGraph
+    if st != 'ok':
+        raise Violation('C16.raises', exc_class(h), {'op': op, 'msg': str(h)})
+    post = obs.full(g, lo, hi)
+    d = obs.diff(pre, post)
+    if d:
+        raise Violation('C16.source-unchanged', ','.join(d), {'op': op, 'before': {k: pre[k] for k in d},
+                                                              'after': {k: post[k] for k in d}})
+    world.evals += 1
+    if op['to'] == 'directed' and 'D16' in world.open_guards:
+        check_to_directed_guarded(world, h, hm, m, op)
+        hm = world._hm_observed
+    else:
+        check_derived(world, 'C16', h, hm, cls, op)
+    new = Replica(h, hm, 'to_' + op['to'], op['g'])
+    new.shared_attrs = rep.shared_attrs      # deepcopy preserves sharing *inside* the copy
+    world.reps.append(new)
+    world.count('convert.%s%s' % (op['to'], '.reciprocal' if op.get('reciprocal') else ''))
+    return {'out': 'ok', 'fault': False, 'cls': 'convert', 'keys': [], 'new': len(world.reps) - 1}
+
+
+def check_to_directed_guarded(world, h, hm, m, op):
+    """D16 (open, pinned by test_conversion): to_directed creates one orientation only.
+    Asserted: class, nodes/attrs, every direction that exists carries exactly the pair's
+    presence, and each undirected pair appears in at least one orientation."""
+    if type(h) is not dn.DynDiGraph:
+        raise Violation('C16.class', 'class', {'got': type(h).__name__})
+    am = attrs_mismatch(h, hm)
+    if am:
+        raise Violation('C16.nodes', 'nodes-or-attrs', dict(am, op=op))
+    from . import oracles
+    lo, hi = oracles.window(m)
+    hm2 = ModelGraph(True, True)
+    hm2.nodes, hm2.gattrs = copy.deepcopy(hm.nodes), copy.deepcopy(hm.gattrs)
+    ns = list(m.nodes)
+    for k, s in m.pres.items():
+        u, v = m.orient[k]
+        have = [(a, b) for a, b in {(u, v), (v, u)} if h.has_interaction(a, b)]
+        if not have:
+            raise Violation('C16.presence', 'pair-missing-in-both-orientations', {'op': op, 'pair': [u, v]})
+        if len(have) < (1 if u == v else 2):
+            world.guard_hits['D16'] += 1
+        for a, b in have:
+            hm2.pres[(a, b)] = set(s)
+            hm2.orient[(a, b)] = (a, b)
+    tmp = Replica(h, hm2, 'tmp')
+    bad = oracles.presence_mismatch(tmp, lo, hi)
+    if bad:
+        raise Violation('C16.presence', bad[0], {'op': op, 'query': bad[1], 'got': bad[2]})
+    world.evals += getattr(tmp, '_n', 1)
+    world._hm_observed = hm2
+
+
+def do_mutate_attr(world, rep, op):
+    """F-ALIAS: mutate attribute values (nested mutables included) of one replica through the
+    public views; the model of that replica alone is advanced"""
+    g, m = rep.g, rep.m
+    if rep.shared_attrs:
+        return {'out': 'skipped', 'fault': False, 'cls': 'skip', 'keys': []}
+    kind = op['kind']
+    if kind == 'node_nested':
+        n = op['n']
+        if n not in m.nodes:
+            return {'out': 'skipped', 'fault': False, 'cls': 'skip', 'keys': []}
+        d = dict(g.nodes(data=True))[n]
+        d.setdefault('tags', []).append(op['val'])
+        d.setdefault('meta', {}).setdefault('k', []).append(op['val'])
+        md = m.nodes[n]
+        md.setdefault('tags', []).append(op['val'])
+        md.setdefault('meta', {}).setdefault('k', []).append(op['val'])
+    elif kind == 'graph_nested':
+        g.graph.setdefault('k', []).append(op['val'])
+        g.graph.setdefault('d', {})['x'] = op['val']
+        m.gattrs.setdefault('k', []).append(op['val'])
+        m.gattrs.setdefault('d', {})['x'] = op['val']
+    else:
+        raise ValueError(kind)
+    world.count('fault.F-ALIAS.' + kind)
+    return {'out': 'ok', 'fault': False, 'cls': 'alias', 'keys': []}
